@@ -21,7 +21,7 @@ ACCEPT, REJECT, SKIP = D.ACCEPT, D.REJECT, D.SKIP
 TIERS = {
     #            per-builtin literals, restriction cases, chain cases, list cases, union cases, matrices, values/derived case
     'quick':    dict(nb=250, nr=420, nc=90, nl=150, nu=150, nm=132, nv=44, pfrac=0.5, pcrash=0.03),
-    'thorough': dict(nb=6000, nr=14000, nc=3000, nl=5000, nu=5000, nm=6000, nv=60, pfrac=0.35, pcrash=0.001),
+    'thorough': dict(nb=5000, nr=10000, nc=2000, nl=3500, nu=3500, nm=4000, nv=60, pfrac=0.35, pcrash=0.001),
 }
 MATRIX_N = 12
 
@@ -1096,6 +1096,19 @@ def chunk_bad(r, cfg, cid):
         add_type_steps(c, [t])
         c.doc(D.schema_text([t], [t]), k='schema')
         cases.append(c)
+    # fixed probe: the zero-item value of a user-defined list of NMTOKEN-derived items, as attribute and as element content
+    I1 = D.Type('I1', 'atomic', base=D.BUILTINS['NMTOKEN'], facets=[('maxLength', '3')])
+    L2 = D.Type('L2', 'list', item=I1)
+    L3 = D.Type('L3', 'list', item=D.BUILTINS['int'])
+    c = core.Case('%s-emptylist' % cid, 'dtype', meta={'class': 'probe:empty-list'})
+    add_type_steps(c, [I1, L2, L3])
+    for t in (L2, L3):
+        c.txt('', k='v', t=t.name, i='%d' % len(c.steps), role='main', nc='1')
+    c.doc(D.schema_text([I1, L2, L3], [L2, L3]), k='schema')
+    for t in (L2, L3):
+        c.doc(D.instance_doc(t, '', False), k='p', t=t.name, raw='', att='0', i='%d' % len(c.steps))
+    c.doc(D.instance_doc(L2, '', True), k='p', t='L2', raw='', att='1', i='%d' % len(c.steps))
+    cases.append(c)
     return cases
 
 
